@@ -36,19 +36,17 @@ Tuples(P, ps) == IF ps = <<>> THEN {<<>>}
 GActs(P) == UNION {{[a |-> P.actions[i].name, args |-> t] : t \in Tuples(P, P.actions[i].params)} :
                       i \in DOMAIN P.actions}
 
-\* expanded effects of an action under env: set of [i, env] (effect index, extended env)
-Expanded(P, a, env) ==
-   UNION {{[i |-> i, env |-> en] : en \in Envs(P, a.effects[i].forall, env)} : i \in DOMAIN a.effects}
-
-\* one expanded effect evaluated in the pre-state
-EvEff(R, a, x, s) ==
-   LET ef == a.effects[x.i]
-       c  == Eval(R, ef.c, s, x.env)
-       ta == EvalArgs(R, ef.f.args, s, x.env)
-       v  == Eval(R, ef.v, s, x.env)
-   IN [i |-> x.i, kind |-> ef.kind, c |-> c, argsU |-> AnyU(ta),
+\* one expanded effect (effect record ef, environment env) evaluated in the pre-state;
+\* who identifies the action instance the effect belongs to (always 1 in sequential steps)
+EvEffect(R, ef, env, who, s) ==
+   LET c  == Eval(R, ef.c, s, env)
+       ta == EvalArgs(R, ef.f.args, s, env)
+       v  == Eval(R, ef.v, s, env)
+   IN [who |-> who, kind |-> ef.kind, c |-> c, argsU |-> AnyU(ta),
        key |-> IF AnyU(ta) THEN 0 ELSE KeyIdx(R, ef.f.name, [j \in DOMAIN ta |-> ArgKey(ta[j])]),
-       v |-> v, ast |-> ef.v, cast |-> ef.c, env |-> x.env]
+       v |-> v, ast |-> ef.v, env |-> env]
+\* all forall-instances of effect ef under env
+ExpandEff(R, ef, env, who, s) == {EvEffect(R, ef, en, who, s) : en \in Envs(R.P, ef.forall, env)}
 
 RECURSIVE SumKind(_,_)
 SumKind(S, acc) == IF S = {} THEN acc
@@ -68,6 +66,38 @@ BoundsUndef(R, s) == \E i \in DOMAIN R.keys :
    IsNumT(t) /\ IsU(s[i]) /\ (t.lo.k # "none" \/ t.hi.k # "none")
 Inv3(R, s) == All3({Cond3(R, R.P.invariants[i], s, <<>>) : i \in DOMAIN R.P.invariants})
 
+\* rules 3-5: apply a set E of evaluated effects (all read in s) together.
+\* Returns [ok, unspec, why, s].  Effects of different action instances (who) happening at
+\* the same instant: two different values are a conflict even for Booleans (add-after-delete
+\* is a rule about ONE action's effects); the same value from two instances is unspecified (7.1-4).
+Combine(R, E, s) ==
+  LET P == R.P
+      undefE == {e \in E : IsU(e.c) \/ (e.c.b /\ (e.argsU \/ IsU(e.v)))}
+      A == {e \in E : ~IsU(e.c) /\ e.c.b /\ ~e.argsU /\ ~IsU(e.v)}
+      touched == {e.key : e \in A}
+      As(k) == {e \in A : e.key = k /\ e.kind = "assign"}
+      Ds(k) == {e \in A : e.key = k /\ e.kind # "assign"}
+      IsB(k) == Fl(P, R.keys[k][1]).type.k = "bool"
+      MultiWho(k) == Cardinality({e.who : e \in As(k)}) > 1
+      Conf(k) == \/ (As(k) # {} /\ Ds(k) # {})
+                 \/ (As(k) # {} /\ Cardinality({e.v : e \in As(k)}) > 1 /\ (~IsB(k) \/ MultiWho(k)))
+      DsU(k) == Ds(k) # {} /\ IsU(s[k])
+      \* 7.1-3: equal values written by syntactically different assignments of one instance
+      StaticZone(k) == ~IsB(k) /\ ~MultiWho(k) /\ Cardinality({e.v : e \in As(k)}) = 1
+                       /\ Cardinality({<<e.ast, e.env>> : e \in As(k)}) > 1
+      Zone4(k) == MultiWho(k) /\ Cardinality({e.v : e \in As(k)}) = 1
+      New(k) == IF As(k) # {}
+                THEN IF IsB(k) THEN BV(\E e \in As(k) : e.v.b) ELSE (CHOOSE e \in As(k) : TRUE).v
+                ELSE SumKind(Ds(k), s[k])
+  IN IF undefE # {} \/ (\E k \in touched : DsU(k))
+     THEN [ok |-> FALSE, why |-> "undef", unspec |-> TRUE, s |-> s]
+     ELSE IF \E k \in touched : Zone4(k)
+     THEN [ok |-> FALSE, why |-> "same-value-two-instances", unspec |-> TRUE, s |-> s]
+     ELSE IF \E k \in touched : Conf(k)
+     THEN [ok |-> FALSE, why |-> "conflict", unspec |-> FALSE, s |-> s]
+     ELSE [ok |-> TRUE, why |-> "ok", unspec |-> \E k \in touched : StaticZone(k),
+           s |-> [k \in DOMAIN s |-> IF k \in touched THEN New(k) ELSE s[k]]]
+
 Step(R, ga, s) ==
   LET P    == R.P
       a    == Act(P, ga.a)
@@ -76,35 +106,16 @@ Step(R, ga, s) ==
   IN IF pre3 = "F" THEN [ok |-> FALSE, why |-> "pre", unspec |-> FALSE, s |-> s]
      ELSE IF pre3 = "?" THEN [ok |-> FALSE, why |-> "pre?", unspec |-> TRUE, s |-> s]
      ELSE
-     LET E == {EvEff(R, a, x, s) : x \in Expanded(P, a, env)}
-         \* effects whose condition, target or value reads something undefined (7.1-2)
-         undefE == {e \in E : IsU(e.c) \/ (e.c.b /\ (e.argsU \/ IsU(e.v)))}
-         A == {e \in E : ~IsU(e.c) /\ e.c.b /\ ~e.argsU /\ ~IsU(e.v)}
-         touched == {e.key : e \in A}
-         As(k) == {e \in A : e.key = k /\ e.kind = "assign"}
-         Ds(k) == {e \in A : e.key = k /\ e.kind # "assign"}
-         IsB(k) == Fl(P, R.keys[k][1]).type.k = "bool"
-         Conf(k) == \/ (As(k) # {} /\ Ds(k) # {})
-                    \/ (As(k) # {} /\ ~IsB(k) /\ Cardinality({e.v : e \in As(k)}) > 1)
-         DsU(k) == Ds(k) # {} /\ IsU(s[k])
-         \* 7.1-3: equal values written by syntactically different assignments
-         StaticZone(k) == ~IsB(k) /\ Cardinality({e.v : e \in As(k)}) = 1
-                          /\ Cardinality({<<e.ast, e.env>> : e \in As(k)}) > 1
-         New(k) == IF As(k) # {}
-                   THEN IF IsB(k) THEN BV(\E e \in As(k) : e.v.b) ELSE (CHOOSE e \in As(k) : TRUE).v
-                   ELSE SumKind(Ds(k), s[k])
-     IN IF undefE # {} \/ (\E k \in touched : DsU(k))
-        THEN [ok |-> FALSE, why |-> "undef", unspec |-> TRUE, s |-> s]
-        ELSE IF \E k \in touched : Conf(k)
-        THEN [ok |-> FALSE, why |-> "conflict", unspec |-> FALSE, s |-> s]
-        ELSE LET ns   == [k \in DOMAIN s |-> IF k \in touched THEN New(k) ELSE s[k]]
-                 uz   == \E k \in touched : StaticZone(k)
+     LET E == UNION {ExpandEff(R, a.effects[i], env, 1, s) : i \in DOMAIN a.effects}
+         c == Combine(R, E, s)
+     IN IF ~c.ok THEN c
+        ELSE LET ns   == c.s
                  inv3 == Inv3(R, ns)
              IN IF BoundsUndef(R, ns) THEN [ok |-> FALSE, why |-> "bounds?", unspec |-> TRUE, s |-> s]
                 ELSE IF ~InBounds(R, ns) \/ inv3 = "F"
-                THEN [ok |-> FALSE, why |-> "inv", unspec |-> uz, s |-> s]
+                THEN [ok |-> FALSE, why |-> "inv", unspec |-> c.unspec, s |-> s]
                 ELSE IF inv3 = "?" THEN [ok |-> FALSE, why |-> "inv?", unspec |-> TRUE, s |-> s]
-                ELSE [ok |-> TRUE, why |-> "ok", unspec |-> uz, s |-> ns]
+                ELSE [ok |-> TRUE, why |-> "ok", unspec |-> c.unspec, s |-> ns]
 
 \* ---------- initial state, goals ----------
 InitSt(R) == [i \in DOMAIN R.keys |->
